@@ -183,6 +183,18 @@ class Integ:
             for _ in range(5):
                 await asyncio.sleep(0)
 
+    async def spin(self, n=20):
+        """Let runnable callbacks run without waiting for pending Home Assistant tasks (no virtual time passes
+        beyond loop-iteration ticks).  Use when runs are expected to be sleeping across the step."""
+        for _ in range(n):
+            await asyncio.sleep(0)
+
+    async def sleep_spin(self, vt_target, n=20):
+        d = vt_target - self.vt()
+        if d > 0:
+            await asyncio.sleep(d)
+        await self.spin(n)
+
     async def sleep(self, seconds):
         await asyncio.sleep(seconds)
         await self.settle(1)
